@@ -198,6 +198,32 @@ pub fn any_entry() -> Entry {
 
 pub const IDX_A: u8 = 1;
 pub const IDX_B: u8 = 7;
+pub const IDX_VACANT: u8 = 3;
+/// length of the superblock / mapping tables in the harness Vfs (crate: MAX_VFS_INDEX = 256)
+pub const TABLE: usize = 8;
+
+/// A client inode number with a CONCRETE mount index byte and 56 symbolic backend bits, built
+/// byte-wise so that `fs_idx()`/`is_pseudo_fs()` constant-fold (with `(idx << 56) | ino` CBMC
+/// cannot exclude the pseudo-fs branch and explores a HashMap lookup with a symbolic key).
+/// Returns (inode, backend bits).
+pub fn any_inode_at(idx: u8) -> (VfsInode, u64) {
+    let b: [u8; 7] = kani::any();
+    let raw = u64::from_le_bytes([b[0], b[1], b[2], b[3], b[4], b[5], b[6], idx]);
+    let low = u64::from_le_bytes([b[0], b[1], b[2], b[3], b[4], b[5], b[6], 0]);
+    (VfsInode::from(raw), low)
+}
+
+/// a mount index chosen by BRANCHING (each path sees a concrete index: a symbolic index into the
+/// table of Arc<Box<dyn ..>> does not finish): mounted A, mounted B, a vacant slot
+pub fn pick_index() -> u8 {
+    if kani::any() {
+        IDX_A
+    } else if kani::any() {
+        IDX_B
+    } else {
+        IDX_VACANT
+    }
+}
 
 pub struct VfsCfg {
     pub global: Option<(u32, u32, u32)>,
@@ -211,13 +237,14 @@ pub struct VfsCfg {
 /// A Vfs with backend A at index 1 and backend B at index 7 (every other slot vacant), the real
 /// 256-entry tables, and optionally a mount of A on the VFS root.
 pub fn mk_vfs(cfg: VfsCfg) -> Vfs {
-    // 256-entry tables built without loops (array -> Vec); the Vfs is mem::forget-ed by callers
+    // TABLE-entry tables (the crate uses 256; harnesses only use indices < TABLE, for which
+    // indexing behaves identically) built without loops; the Vfs is mem::forget-ed by callers
     const NONE_FS: Option<Arc<BackFileSystem>> = None;
-    let mut sb_arr: [Option<Arc<BackFileSystem>>; MAX_VFS_INDEX] = [NONE_FS; MAX_VFS_INDEX];
+    let mut sb_arr: [Option<Arc<BackFileSystem>>; TABLE] = [NONE_FS; TABLE];
     sb_arr[IDX_A as usize] = Some(Arc::new(Box::new(Bk { id: IDX_A })));
     sb_arr[IDX_B as usize] = Some(Arc::new(Box::new(Bk { id: IDX_B })));
     let sb: Vec<Option<Arc<BackFileSystem>>> = Vec::from(Box::new(sb_arr) as Box<[_]>);
-    let mut map_arr: [Option<(u32, u32, u32)>; MAX_VFS_INDEX] = [None; MAX_VFS_INDEX];
+    let mut map_arr: [Option<(u32, u32, u32)>; TABLE] = [None; TABLE];
     map_arr[IDX_A as usize] = cfg.map_a;
     map_arr[IDX_B as usize] = cfg.map_b;
     let maps: Vec<Option<(u32, u32, u32)>> = Vec::from(Box::new(map_arr) as Box<[_]>);
@@ -340,3 +367,420 @@ vh!(c07_convert_inode, 8, {
     kani::cover!(ino != 0 && ino <= VFS_MAX_INO && idx > 0, "regular");
     std::mem::forget(vfs);
 });
+
+// ============================================================================ C07 routing
+fn plain_cfg() -> VfsCfg {
+    VfsCfg { global: None, map_a: None, map_b: None, root_mount: false, opts: VfsOptions::default(), with_pseudo: false }
+}
+
+fn name_x() -> &'static CStr {
+    CStr::from_bytes_with_nul(b"x\0").unwrap()
+}
+
+/// get_real_rootfs: an inode is routed to the backend mounted at its index, with the backend's
+/// own inode number; a vacant index fails without touching any backend.
+/// `via_setattr`: symbolic backend inode bits through SETATTR (whose pseudo-fs branch is the
+/// trait default); otherwise GETATTR with a fixed backend inode (with symbolic bits CBMC cannot
+/// exclude the pseudo-fs branch of getattr/lookup/readdirplus, whose HashMap lookup with a
+/// symbolic key does not finish).
+pub fn c07_route_getattr_at(idx: u8, via_setattr: bool) {
+    let vfs = mk_vfs(plain_cfg());
+    let (node, ino) = if via_setattr { any_inode_at(idx) } else { (VfsInode::new(idx, 5), 5) };
+    let e = any_entry();
+    unsafe {
+        B_ENTRY = Some(e);
+        B_ERR = 0;
+    }
+    reset_blog();
+    let ctx = Context { uid: kani::any(), gid: kani::any(), pid: kani::any() };
+    let r = if via_setattr {
+        vfs.setattr(&ctx, node, any_stat(), None, SetattrValid::MODE)
+    } else {
+        vfs.getattr(&ctx, node, None)
+    };
+    unsafe {
+        if idx == IDX_A || idx == IDX_B {
+            assert!(BLOG.calls == 1 && BLOG.who == idx, "[C07] the request is delivered to exactly the backend mounted at the inode's index");
+            assert!(BLOG.ino == ino, "[C07] the backend receives its own inode number");
+            let (st, _) = r.unwrap();
+            assert!(st.st_ino == u64::from(VfsInode::new(idx, ino)), "[C07] the inode number shown to the client identifies (mount, backend inode)");
+        } else {
+            assert!(BLOG.calls == 0, "[C07] an inode whose mount slot is vacant reaches no backend");
+            assert!(r.is_err(), "[C07] an inode whose mount slot is vacant fails");
+        }
+    }
+    kani::cover!(true, "reached");
+    std::mem::forget(vfs);
+}
+vh!(c07_route_setattr_a, 8, c07_route_getattr_at(IDX_A, true));
+vh!(c07_route_setattr_b, 8, c07_route_getattr_at(IDX_B, true));
+vh!(c07_route_setattr_vacant, 8, c07_route_getattr_at(IDX_VACANT, true));
+vh!(c07_route_getattr_a, 8, c07_route_getattr_at(IDX_A, false));
+vh!(c07_route_getattr_vacant, 8, c07_route_getattr_at(IDX_VACANT, false));
+
+/// lookup through a backend: the returned entry is re-numbered with the parent's mount index and
+/// a too-large backend inode is refused.
+pub fn c07_route_lookup_at(idx: u8, via_mkdir: bool) {
+    let vfs = mk_vfs(plain_cfg());
+    let (node, ino) = if via_mkdir { any_inode_at(idx) } else { (VfsInode::new(idx, 5), 5) };
+    let e = any_entry();
+    unsafe {
+        B_ENTRY = Some(e);
+        B_ERR = 0;
+    }
+    reset_blog();
+    let ctx = Context { uid: 1, gid: 2, pid: 3 };
+    let r = if via_mkdir { vfs.mkdir(&ctx, node, name_x(), 0, 0) } else { vfs.lookup(&ctx, node, name_x()) };
+    unsafe {
+        assert!(BLOG.calls == 1 && BLOG.who == idx && BLOG.ino == ino, "[C07] lookup is delivered to the owning backend with its own inode");
+    }
+    if e.inode > VFS_MAX_INO {
+        assert!(r.is_err(), "[C07] a backend inode beyond 56 bits is refused");
+    } else {
+        let out = r.unwrap();
+        if e.inode == 0 {
+            assert!(out.inode == 0, "[C07] a negative entry stays negative");
+        } else {
+            let v = VfsInode::from(out.inode);
+            assert!(v.fs_idx() == idx && v.ino() == e.inode, "[C07] the entry's inode identifies (mount of the parent, backend inode)");
+        }
+        assert!(out.attr.st_ino == out.inode, "[C07] lookup and getattr show the same inode number");
+    }
+    kani::cover!(e.inode > VFS_MAX_INO, "refused");
+    kani::cover!(e.inode != 0 && e.inode <= VFS_MAX_INO, "converted");
+    std::mem::forget(vfs);
+}
+vh!(c07_route_mkdir_a, 8, c07_route_lookup_at(IDX_A, true));
+vh!(c07_route_mkdir_b, 8, c07_route_lookup_at(IDX_B, true));
+vh!(c07_route_lookup_b, 8, c07_route_lookup_at(IDX_B, false));
+
+/// operations spanning two mounts are refused before any backend is touched
+pub fn c07_cross_mount_at(a: u8, b: u8, is_link: bool) {
+    let vfs = mk_vfs(plain_cfg());
+    let (n1, i1) = any_inode_at(a);
+    let (n2, i2) = any_inode_at(b);
+    unsafe {
+        B_ENTRY = Some(Entry::default());
+        B_ERR = 0;
+    }
+    reset_blog();
+    let ctx = Context { uid: 1, gid: 2, pid: 3 };
+    let err = if is_link {
+        vfs.link(&ctx, n1, n2, name_x()).err()
+    } else {
+        vfs.rename(&ctx, n1, name_x(), n2, name_x(), 0).err()
+    };
+    unsafe {
+        if a != b {
+            assert!(BLOG.calls == 0, "[C07] an operation spanning two mounts reaches no backend");
+            assert!(matches!(err.map(|e| e.raw_os_error()), Some(Some(libc::EINVAL))), "[C07] an operation spanning two mounts is refused");
+        } else {
+            assert!(BLOG.calls == 1 && BLOG.who == a && BLOG.ino == i1 && BLOG.ino2 == i2, "[C07] same-mount rename/link is delivered with both backend inodes");
+        }
+    }
+    kani::cover!(true, "reached");
+    std::mem::forget(vfs);
+}
+vh!(c07_cross_rename_ab, 8, c07_cross_mount_at(IDX_A, IDX_B, false));
+vh!(c07_cross_link_ba, 8, c07_cross_mount_at(IDX_B, IDX_A, true));
+vh!(c07_same_rename_aa, 8, c07_cross_mount_at(IDX_A, IDX_A, false));
+vh!(c07_same_link_bb, 8, c07_cross_mount_at(IDX_B, IDX_B, true));
+
+/// a mount on the VFS root: ROOT_ID is routed to the mounted backend's root
+vh!(c07_root_mount, 8, {
+    let mut cfg = plain_cfg();
+    cfg.root_mount = true;
+    let vfs = mk_vfs(cfg);
+    unsafe {
+        B_ENTRY = Some(Entry::default());
+        B_ERR = 0;
+    }
+    reset_blog();
+    let ctx = Context { uid: 1, gid: 2, pid: 3 };
+    let r = vfs.access(&ctx, VfsInode::new(0, ROOT_ID), 0);
+    unsafe {
+        assert!(r.is_ok() && BLOG.calls == 1 && BLOG.who == IDX_A && BLOG.ino == 1, "[C07] with a root mount, the VFS root is the mounted backend's root");
+    }
+    kani::cover!(true, "reached");
+    std::mem::forget(vfs);
+});
+
+// ============================================================================ C14 paths
+/// every entry-returning operation through a backend: the backend sees the caller ids translated
+/// external->internal with the mapping of the inode's mount (as Server does via
+/// id_remap_with_nodeid) and the client sees owner ids translated back.
+pub fn c14_path(op: u8, idx: u8) {
+    let cfg = VfsCfg { global: any_mapping(), map_a: any_mapping(), map_b: None, root_mount: false, opts: VfsOptions::default(), with_pseudo: false };
+    let (g, ma) = (cfg.global, cfg.map_a);
+    let vfs = mk_vfs(cfg);
+    let eff = if idx == IDX_A && ma.is_some() { ma } else { g };
+    let node = if op == 0 || op == 1 || op == 8 { VfsInode::new(idx, 5) } else { any_inode_at(idx).0 };
+    let mut e = any_entry();
+    kani::assume(e.inode != 0 && e.inode <= VFS_MAX_INO);
+    unsafe {
+        B_ENTRY = Some(e);
+        B_ERR = 0;
+    }
+    reset_blog();
+    let (uid, gid): (u32, u32) = (kani::any(), kani::any());
+    let mut ctx = Context { uid, gid, pid: 3 };
+    // what Server::remap_ctx_ids does before dispatch
+    vfs.id_remap_with_nodeid(&mut ctx, node).unwrap();
+    let (want_uid, want_gid) = match eff {
+        Some((i, x, r)) => (spec_remap(uid, x, i, r), spec_remap(gid, x, i, r)),
+        None => (uid, gid),
+    };
+    assert!(ctx.uid == want_uid && ctx.gid == want_gid, "[C14] caller ids are translated external->internal with the mapping of the inode's mount (own mapping, else global)");
+    let mut set = any_stat();
+    let out: Option<(u32, u32)> = match op {
+        0 => vfs.lookup(&ctx, node, name_x()).ok().map(|e| (e.attr.st_uid, e.attr.st_gid)),
+        1 => vfs.getattr(&ctx, node, None).ok().map(|(s, _)| (s.st_uid, s.st_gid)),
+        2 => vfs.setattr(&ctx, node, set, None, SetattrValid::UID | SetattrValid::GID).ok().map(|(s, _)| (s.st_uid, s.st_gid)),
+        3 => vfs.mkdir(&ctx, node, name_x(), 0, 0).ok().map(|e| (e.attr.st_uid, e.attr.st_gid)),
+        4 => vfs.mknod(&ctx, node, name_x(), 0, 0, 0).ok().map(|e| (e.attr.st_uid, e.attr.st_gid)),
+        5 => vfs.symlink(&ctx, name_x(), node, name_x()).ok().map(|e| (e.attr.st_uid, e.attr.st_gid)),
+        6 => vfs.link(&ctx, node, node, name_x()).ok().map(|e| (e.attr.st_uid, e.attr.st_gid)),
+        7 => vfs.create(&ctx, node, name_x(), CreateIn { flags: 0, mode: 0, umask: 0, fuse_flags: 0 }).ok().map(|(e, _, _, _)| (e.attr.st_uid, e.attr.st_gid)),
+        _ => {
+            let mut seen: Option<(u32, u32)> = None;
+            let r = vfs.readdirplus(&ctx, node, 0, 4096, 0, &mut |_d, en| {
+                seen = Some((en.attr.st_uid, en.attr.st_gid));
+                Ok(1)
+            });
+            if r.is_ok() { seen } else { None }
+        }
+    };
+    unsafe {
+        assert!(BLOG.calls == 1 && BLOG.who == idx, "[C14] delivered to the owning backend");
+        assert!(BLOG.uid == want_uid && BLOG.gid == want_gid, "[C14] the backend sees the translated caller ids");
+        if op == 2 {
+            let (su, sg) = match eff {
+                Some((i, x, r)) => (spec_remap(set.st_uid, x, i, r), spec_remap(set.st_gid, x, i, r)),
+                None => (set.st_uid, set.st_gid),
+            };
+            assert!(BLOG.st_uid == su && BLOG.st_gid == sg, "[C14] owner ids to be set are translated external->internal");
+        }
+    }
+    let (ou, og) = out.unwrap();
+    let (wu, wg) = match eff {
+        Some((i, x, r)) => (spec_remap(e.attr.st_uid, i, x, r), spec_remap(e.attr.st_gid, i, x, r)),
+        None => (e.attr.st_uid, e.attr.st_gid),
+    };
+    assert!(ou == wu && og == wg, "[C14] the client sees returned owner ids translated internal->external with the mount's mapping");
+    kani::cover!(idx != IDX_A || ma.is_some(), "per-mount mapping used");
+    kani::cover!(idx != IDX_B || g.is_some(), "global fallback used");
+    kani::cover!(eff.is_none(), "no mapping");
+    set.st_uid = 0;
+    e.inode = 0;
+    std::mem::forget(vfs);
+}
+vh!(c14_path_lookup_a, 8, c14_path(0, IDX_A));
+vh!(c14_path_lookup_b, 8, c14_path(0, IDX_B));
+vh!(c14_path_getattr_a, 8, c14_path(1, IDX_A));
+vh!(c14_path_getattr_b, 8, c14_path(1, IDX_B));
+vh!(c14_path_setattr_a, 8, c14_path(2, IDX_A));
+vh!(c14_path_setattr_b, 8, c14_path(2, IDX_B));
+vh!(c14_path_mkdir_a, 8, c14_path(3, IDX_A));
+vh!(c14_path_mkdir_b, 8, c14_path(3, IDX_B));
+vh!(c14_path_mknod_a, 8, c14_path(4, IDX_A));
+vh!(c14_path_mknod_b, 8, c14_path(4, IDX_B));
+vh!(c14_path_symlink_a, 8, c14_path(5, IDX_A));
+vh!(c14_path_symlink_b, 8, c14_path(5, IDX_B));
+vh!(c14_path_link_a, 8, c14_path(6, IDX_A));
+vh!(c14_path_link_b, 8, c14_path(6, IDX_B));
+vh!(c14_path_create_a, 8, c14_path(7, IDX_A));
+vh!(c14_path_create_b, 8, c14_path(7, IDX_B));
+vh!(c14_path_readdirplus_a, 8, c14_path(8, IDX_A));
+vh!(c14_path_readdirplus_b, 8, c14_path(8, IDX_B));
+
+/// get_effective_id_mapping for every index: own mapping if given, else global (also index 0)
+vh!(c14_effective_mapping, 8, {
+    let cfg = VfsCfg { global: any_mapping(), map_a: any_mapping(), map_b: any_mapping(), root_mount: false, opts: VfsOptions::default(), with_pseudo: false };
+    let (g, ma, mb) = (cfg.global, cfg.map_a, cfg.map_b);
+    let vfs = mk_vfs(cfg);
+    let idx: u8 = kani::any();
+    kani::assume((idx as usize) < TABLE);
+    let got = vfs.get_effective_id_mapping(idx);
+    let want = if idx == IDX_A && ma.is_some() { ma } else if idx == IDX_B && mb.is_some() { mb } else { g };
+    assert!(got == want, "[C14] each mount uses its own mapping if it was given one and the global mapping otherwise");
+    kani::cover!(idx == IDX_B && mb.is_some(), "own");
+    kani::cover!(idx == 5 && g.is_some(), "global");
+    std::mem::forget(vfs);
+});
+
+// ============================================================================ C12 VFS init algebra
+vh!(c12_vfs_init, 8, {
+    let mut o = VfsOptions::default();
+    o.no_open = kani::any();
+    o.no_opendir = kani::any();
+    o.no_writeback = kani::any();
+    o.killpriv_v2 = kani::any();
+    o.out_opts = FsOptions::from_bits_truncate(kani::any());
+    let want_out = o.out_opts;
+    let (no_open, no_opendir, no_wb, kp) = (o.no_open, o.no_opendir, o.no_writeback, o.killpriv_v2);
+    let mut cfg = plain_cfg();
+    cfg.opts = o;
+    let vfs = mk_vfs(cfg);
+    let client = FsOptions::from_bits_truncate(kani::any());
+    reset_blog();
+    let r = vfs.init(client).unwrap();
+    let after = vfs.options();
+    // expected algebra (the statement of C12)
+    let mut exp = want_out;
+    if no_open {
+        exp.remove(FsOptions::ATOMIC_O_TRUNC);
+    } else {
+        exp.remove(FsOptions::ZERO_MESSAGE_OPEN);
+    }
+    if !no_opendir {
+        exp.remove(FsOptions::ZERO_MESSAGE_OPENDIR);
+    }
+    if no_wb {
+        exp.remove(FsOptions::WRITEBACK_CACHE);
+    }
+    if !kp {
+        exp.remove(FsOptions::HANDLE_KILLPRIV_V2);
+    }
+    exp &= client;
+    assert!(r == exp && after.out_opts == exp, "[C12] the VFS enables exactly the intersection of what it may offer and what the client offered");
+    assert!(client.contains(r), "[C12] nothing the client did not offer is enabled");
+    assert!(after.no_open == (no_open && client.contains(FsOptions::ZERO_MESSAGE_OPEN)), "[C12] no-open behaviour only when ZERO_MESSAGE_OPEN was negotiated");
+    assert!(after.no_opendir == (no_opendir && client.contains(FsOptions::ZERO_MESSAGE_OPENDIR)), "[C12] no-opendir behaviour only when ZERO_MESSAGE_OPENDIR was negotiated");
+    assert!(after.in_opts == client, "[C12] the client's capabilities are recorded");
+    unsafe {
+        assert!(BLOG.inits == 2 && BLOG.init_opts == exp.bits(), "[C12] every mounted backend is initialised once with the negotiated options");
+    }
+    assert!(vfs.initialized(), "[C12] initialised");
+    // second INIT is refused and changes nothing
+    let second = vfs.init(FsOptions::from_bits_truncate(kani::any()));
+    assert!(matches!(second.as_ref().map_err(|e| e.raw_os_error()), Err(Some(libc::EINVAL))), "[C12] the VFS refuses a second INIT");
+    let again = vfs.options();
+    assert!(again.out_opts == exp && again.no_open == after.no_open && again.no_opendir == after.no_opendir && again.in_opts == client, "[C12] a refused second INIT changes nothing");
+    unsafe { assert!(BLOG.inits == 2, "[C12] backends are not initialised twice") };
+    kani::cover!(after.no_open && !after.no_opendir, "no_open only");
+    kani::cover!(!after.no_open && after.no_opendir, "no_opendir only");
+    std::mem::forget(second);
+    std::mem::forget(vfs);
+});
+
+/// after negotiation: OPEN / OPENDIR are answered ENOSYS iff the no-open / no-opendir mode is on
+vh!(c12_vfs_open_mode, 8, {
+    let mut o = VfsOptions::default();
+    o.no_open = kani::any();
+    o.no_opendir = kani::any();
+    let (no_open, no_opendir) = (o.no_open, o.no_opendir);
+    let mut cfg = plain_cfg();
+    cfg.opts = o;
+    let vfs = mk_vfs(cfg);
+    unsafe {
+        B_ENTRY = Some(Entry::default());
+        B_ERR = 0;
+    }
+    reset_blog();
+    let ctx = Context { uid: 1, gid: 2, pid: 3 };
+    let r = vfs.open(&ctx, VfsInode::new(IDX_A, 5), 0, 0);
+    assert!(matches!(r.as_ref().map_err(|e| e.raw_os_error()), Err(Some(libc::ENOSYS))) == no_open, "[C12] OPEN is answered ENOSYS exactly in no-open mode");
+    unsafe { assert!((BLOG.calls == 0) == no_open, "[C12] in no-open mode OPEN reaches no backend") };
+    let r2 = vfs.opendir(&ctx, VfsInode::new(IDX_A, 5), 0);
+    assert!(matches!(r2.as_ref().map_err(|e| e.raw_os_error()), Err(Some(libc::ENOSYS))) == no_opendir, "[C12] OPENDIR is answered ENOSYS exactly in no-opendir mode");
+    kani::cover!(no_open && !no_opendir, "mixed");
+    std::mem::forget(r);
+    std::mem::forget(r2);
+    std::mem::forget(vfs);
+});
+
+// ============================================================================ C06 names at the VFS
+/// names of <= 3 bytes (+NUL), symbolic
+fn any_name(buf: &mut [u8; 4]) -> &CStr {
+    let n: usize = kani::any();
+    kani::assume(n <= 3);
+    let mut i = 0;
+    while i < n {
+        let c: u8 = kani::any();
+        kani::assume(c != 0);
+        buf[i] = c;
+        i += 1;
+    }
+    buf[n] = 0;
+    CStr::from_bytes_with_nul(&buf[..=n]).unwrap()
+}
+fn has_slash(n: &CStr) -> bool {
+    let b = n.to_bytes();
+    let mut i = 0;
+    while i < b.len() {
+        if b[i] == b'/' {
+            return true;
+        }
+        i += 1;
+    }
+    false
+}
+fn is_dots(n: &CStr) -> bool {
+    let b = n.to_bytes();
+    (b.len() == 1 && b[0] == b'.') || (b.len() == 2 && b[0] == b'.' && b[1] == b'.')
+}
+
+#[kani::proof]
+#[kani::unwind(8)]
+pub fn c06_name_predicates() {
+    let mut buf = [0u8; 4];
+    let name = any_name(&mut buf);
+    let bad = has_slash(name) || is_dots(name);
+    assert!(is_safe_path_component(name) == !bad, "[C06] a safe path component contains no '/' and is neither '.' nor '..'");
+    assert!(validate_path_component(name).is_ok() == !bad, "[C06] validate_path_component accepts exactly the safe components");
+    assert!(is_dot_or_dotdot(name) == is_dots(name), "[C06] is_dot_or_dotdot recognises exactly '.' and '..'");
+    kani::cover!(has_slash(name), "slash");
+    kani::cover!(is_dots(name) && name.to_bytes().len() == 2, "dotdot");
+    kani::cover!(!bad && name.to_bytes().len() == 3, "ordinary");
+}
+
+/// every name-taking mutator of the VFS rejects '.', '..' and names with '/' before any backend is
+/// touched; lookup rejects names with '/'.
+pub fn c06_vfs_op(op: u8) {
+    let vfs = mk_vfs(plain_cfg());
+    let mut buf = [0u8; 4];
+    let name = any_name(&mut buf);
+    let bad = has_slash(name) || is_dots(name);
+    unsafe {
+        B_ENTRY = Some(Entry::default());
+        B_ERR = 0;
+    }
+    reset_blog();
+    let ctx = Context { uid: 1, gid: 2, pid: 3 };
+    let node = VfsInode::new(IDX_A, 5);
+    let ok_name = name_x();
+    let err: Option<i32> = match op {
+        0 => vfs.symlink(&ctx, ok_name, node, name).err().and_then(|e| e.raw_os_error()),
+        1 => vfs.mknod(&ctx, node, name, 0, 0, 0).err().and_then(|e| e.raw_os_error()),
+        2 => vfs.mkdir(&ctx, node, name, 0, 0).err().and_then(|e| e.raw_os_error()),
+        3 => vfs.unlink(&ctx, node, name).err().and_then(|e| e.raw_os_error()),
+        4 => vfs.rmdir(&ctx, node, name).err().and_then(|e| e.raw_os_error()),
+        5 => vfs.rename(&ctx, node, name, node, ok_name, 0).err().and_then(|e| e.raw_os_error()),
+        6 => vfs.rename(&ctx, node, ok_name, node, name, 0).err().and_then(|e| e.raw_os_error()),
+        7 => vfs.link(&ctx, node, node, name).err().and_then(|e| e.raw_os_error()),
+        8 => vfs.create(&ctx, node, name, CreateIn { flags: 0, mode: 0, umask: 0, fuse_flags: 0 }).err().and_then(|e| e.raw_os_error()),
+        _ => vfs.lookup(&ctx, node, name).err().and_then(|e| e.raw_os_error()),
+    };
+    let must_reject = if op == 9 { has_slash(name) } else { bad };
+    unsafe {
+        if must_reject {
+            assert!(BLOG.calls == 0, "[C06] a rejected name never reaches a backend");
+            assert!(err == Some(libc::EINVAL), "[C06] '.', '..' and names containing '/' are refused (lookup: names containing '/')");
+        } else {
+            assert!(BLOG.calls == 1 && err.is_none(), "[C06] an acceptable single-component name is passed on");
+        }
+    }
+    kani::cover!(must_reject, "rejected");
+    kani::cover!(!must_reject, "accepted");
+    std::mem::forget(vfs);
+}
+vh!(c06_vfs_symlink, 8, c06_vfs_op(0));
+vh!(c06_vfs_mknod, 8, c06_vfs_op(1));
+vh!(c06_vfs_mkdir, 8, c06_vfs_op(2));
+vh!(c06_vfs_unlink, 8, c06_vfs_op(3));
+vh!(c06_vfs_rmdir, 8, c06_vfs_op(4));
+vh!(c06_vfs_rename_old, 8, c06_vfs_op(5));
+vh!(c06_vfs_rename_new, 8, c06_vfs_op(6));
+vh!(c06_vfs_link, 8, c06_vfs_op(7));
+vh!(c06_vfs_create, 8, c06_vfs_op(8));
+vh!(c06_vfs_lookup, 8, c06_vfs_op(9));
